@@ -382,7 +382,17 @@ func run(real bool, ops []Op, vars []string) (fail string, judged, unjudged int)
 		vm := model[v]
 		anyMock = anyMock || (vm.mocked && !vm.dirty && !vm.displaced && !vm.partial)
 	}
-	if anyMock && (len(ops) == 0 || ops[len(ops)-1].K != kGC) {
+	// (only after histories in which a mock was made after a Reset or a dropped builder: the plain cases are
+	// covered by the GC operation of the alphabet, and a collection per history is what the time goes into)
+	remocked := false
+	for i, o := range ops {
+		if o.K == kReset || o.K == kDrop {
+			for _, o2 := range ops[i+1:] {
+				remocked = remocked || o2.K < kGC
+			}
+		}
+	}
+	if anyMock && remocked && ops[len(ops)-1].K != kGC {
 		gc()
 		for _, v := range vars {
 			vm := model[v]
